@@ -1,7 +1,7 @@
 """C05 - collection deltas are coherent with collection values at every tick (TSS / TSD / tick TSW)."""
 import itertools
 import os
-from vlib import Case, Stream, BUILD, model_cmd
+from vlib import Case, Stream, BUILD, VERIF, model_cmd
 
 ID = "C05"
 LEAN_MODULES = ["HgVerif.Props.C05"]
@@ -15,11 +15,11 @@ THEOREMS = [_P + n for n in [
     "tsd_inv_reachable", "tsd_slot_inv_reachable", "tsd_delta_canonical", "tsd_delta_coherent",
     "tsd_modified_subset_value", "tsd_removed_readable", "tsd_set_erase_no_trace", "tsd_erase_set_no_trace",
     "tsd_times", "tsd_window_is_cycle", "tsd_ghost_eq_fold", "tsd_value_eq_fold", "GDict.run_x",
-    # TSD value level: partial + the two kernel-checked counterexamples to the full statements
-    "tsd_value_delta_partial", "tsd_value_delta_incoherent", "tsd_keyset_incoherent",
-    # ... and the full value-level statement for clean histories (no re-insert after write+erase in one cycle)
-    "tsd_vinv_reachable", "tsd_value_delta_clean_partial", "tsd_vghost_is_cycle_start", "GDictV.run_x",
-    "GDictV.run_keys", "cleanHistory_of_B",
+    # TSD value level: the full statement (code with the F-C05-1 repair), what it is built on, the pre-fix
+    # counterexample, and the key_set() counterexample (known finding F-C05-2)
+    "tsd_value_delta_coherent", "tsd_vinv_reachable", "tsd_vghost_is_cycle_start", "tsd_value_delta_mem",
+    "tsd_value_delta_partial", "tsd_value_delta_incoherent_prefix", "tsd_keyset_incoherent",
+    "GDictV.run_x", "GDictV.run_keys",
     # tick window
     "window_last_n", "window_evicted", "GWin.run_w",
     # fixed TSL / TSB (ceiling)
@@ -117,9 +117,10 @@ def gen_tss(rng, idx, maxops, profile=None):
     return Case(lines, {"profile": profile})
 
 
-def gen_tsd(rng, idx, maxops, mode="clean"):
-    """mode 'clean' never writes a key again in the cycle in which it was written and then erased and never
-    creates a key without a value; 'rewrite' and 'late' do exactly that (the two exposed defects)."""
+def gen_tsd(rng, idx, maxops, mode="plain"):
+    """mode 'plain': set / erase / clear / touch histories; 'rewrite' adds dense write + erase + re-insert of one key
+    within a cycle (regression for the repaired finding F-C05-1); 'late' creates keys without a value (`at`), the
+    pattern of the known finding F-C05-2 about the key_set() projection."""
     lines = ["case %d" % idx, "tsd"]
     clk = _Clock(rng)
     profile = rng.choice(["small", "small", "churn", "growth"])
@@ -134,8 +135,6 @@ def gen_tsd(rng, idx, maxops, mode="clean"):
         clk.tick()
 
     def emit_set(k):
-        if mode == "clean" and k in erased_after_write:
-            return False
         lines.append("set %d %d %d" % (clk.t, k, rng.randint(-3, 9)))
         written.add(k); recent.append(k)
         return True
@@ -280,22 +279,18 @@ def exhaustive_tsd(n_ops, start):
             if op == "tick":
                 lines.append("dump %d" % t); t += 1; written, bad = set(), set()
             elif op == "set":
-                if k in bad:
-                    ok = False; break
                 v += 1; lines.append("set %d %d %d" % (t, k, v)); written.add(k)
             else:
                 lines.append("erase %d %d" % (t, k))
                 if k in written:
                     bad.add(k)
-        if not ok:
-            continue
         lines.append("dump %d" % t)
-        out.append(Case(lines, {"mode": "clean", "profile": "exhaustive"}))
+        out.append(Case(lines, {"mode": "plain", "profile": "exhaustive"}))
     return out
 
 
 def _corpus():
-    cdir = os.path.join(os.path.dirname(BUILD), "corpus", "C05")
+    cdir = os.path.join(VERIF, "corpus", "C05")
     out = {}
     if os.path.isdir(cdir):
         for f in sorted(os.listdir(cdir)):
@@ -315,9 +310,9 @@ def streams(rng, tier, seed):
     tss = [gen_tss(rng, i, mo) for i in range(n)]
     tsw = [gen_tsw(rng, i, 30 if quick else 60) for i in range(n // 2)]
     tsl = [gen_tsl(rng, i, 25 if quick else 50) for i in range(n // 3)]
-    tsd = [gen_tsd(rng, i, mo, "clean") for i in range(n)]
-    rewrite = [gen_tsd(rng, 2 * i, 14 if quick else 30, "rewrite") for i in range(30 if quick else 400)]
-    late = [gen_tsd(rng, 2 * i + 1, 14 if quick else 30, "late") for i in range(30 if quick else 400)]
+    tsd = [gen_tsd(rng, i, mo, "plain") for i in range(n)]
+    tsd += [gen_tsd(rng, n + i, 14 if quick else 30, "rewrite") for i in range(40 if quick else 600)]
+    late = [gen_tsd(rng, i, 14 if quick else 30, "late") for i in range(30 if quick else 400)]
     if quick:
         tss += exhaustive_tss(3, len(tss))
         tsd += exhaustive_tsd(3, len(tsd))
@@ -329,9 +324,8 @@ def streams(rng, tier, seed):
         Stream("tsw", impl, model, corpus.get("tsw", []) + tsw),
         Stream("tsl", impl, model, corpus.get("tsl", []) + tsl),
         Stream("tsd", impl, model, corpus.get("tsd", []) + tsd),
-        # histories that hit the two defects found in TSDSlotStorage (see LEVEL_NOTE), alternating; kept apart so
-        # that the streams above stay a clean oracle for everything else
-        Stream("tsd-defects", impl, model, corpus.get("tsddefects", []) + [c for pair in zip(rewrite, late) for c in pair]),
+        # keys created without a value (`at`): the known finding F-C05-2 about the key_set() projection
+        Stream("tsd-defects", impl, model, corpus.get("tsddefects", []) + late),
     ]
 
 
@@ -692,7 +686,7 @@ def _mon_tsd(case, out):
                     applied = {k: x for k, x in prev_pub.items() if k not in d[0]}
                     applied.update(d[1])
                     if applied != v:
-                        res.finding.append("tsd-delta: value differs from the previous value with the tick's delta applied: t=%d value %s, "
+                        res.bad.append("tsd-delta: value differs from the previous value with the tick's delta applied: t=%d value %s, "
                                            "previous %s, delta (removed %s, modified %s) gives %s"
                                            % (t, v, prev_pub, sorted(d[0]), d[1], applied))
                 # the key_set() projection read as a TSS
@@ -910,7 +904,7 @@ def _run(stream, case, out):
 
 def monitor(stream, case, out):
     res = _run(stream, case, out)
-    # ordinary violations first; the two recorded defect classes are reported only when nothing else is wrong,
+    # ordinary violations first; the known-finding class (tsd-keyset) is reported only when nothing else is wrong,
     # so that a known finding can never mask a new violation in the same case
     return (res.bad or res.finding)[:3]
 
@@ -955,12 +949,13 @@ LEVEL_TEXT = ("Kernel-checked theorems over ALL mutation histories of the modell
               "children written in the cycle. The model is tied to the code by running real TSOutput objects on generated "
               "histories and comparing every observation; an independent trace monitor decides the relations on the "
               "implementation's dumps.")
-LEVEL_NOTE = ("Partial at TSD value level: the full statement `TSDValueDeltaCoherent` is FALSE for the code as it stands "
-              "(kernel-checked counterexample `tsd_value_delta_incoherent`, reproduced on the real TSOutput: a key written, "
-              "erased and written again within one cycle is missing from modified_items()/delta_value); it is proved for all "
-              "clean histories (`tsd_value_delta_clean_partial`). The key_set() projection of a TSD is not coherent when a key "
-              "is created by at() without a value (`tsd_keyset_incoherent`, also reproduced). Both are reported by the monitor "
-              "on the stream `tsd-defects` (messages `tsd-delta:` / `tsd-keyset:`), which is kept apart from the clean streams. "
-              "Trusted: Lean kernel; axioms propext/Classical.choice/Quot.sound; the hand-written model (hash index as first "
-              "constructed slot, bitsets per slot); the correspondence harness. Element types other than Int, nested "
-              "TSD/TSS/TSB values, dynamic TSL, duration windows and child invalidation are not exercised.")
+LEVEL_NOTE = ("Full at TSD value level for the code with the repair of finding F-C05-1 (fixes/c05_f1.patch, "
+              "`restore_modified_mark`): `tsd_value_delta_coherent` proves value' = previous value with the tick's removed keys "
+              "and modified items applied for every history with non-decreasing times; `tsd_value_delta_incoherent_prefix` is "
+              "the kernel-checked counterexample for the pre-fix insert path (a key written, erased and written again within "
+              "one cycle was missing from modified_items()/delta_value) and the monitor reports that pattern as `tsd-delta:` "
+              "if it returns. Known finding F-C05-2 (not repaired): the key_set() projection of a TSD is not coherent when a "
+              "key is created by at() without a value (`tsd_keyset_incoherent`; monitor message `tsd-keyset:` on the stream "
+              "`tsd-defects`). Trusted: Lean kernel; axioms propext/Classical.choice/Quot.sound; the hand-written model (hash "
+              "index as first constructed slot, bitsets per slot); the correspondence harness. Element types other than Int, "
+              "nested TSD/TSS/TSB values, dynamic TSL, duration windows and child invalidation are not exercised.")
